@@ -398,7 +398,9 @@ def shot_noise(img, method='poisson', seed=None):
         # REF: https://stackoverflow.com/a/33701974
         with np.errstate(divide='raise'):
             try:
-                img = np.asarray(rng.normal(loc=img, scale=np.sqrt(img)), dtype=int)
+                # round to the nearest count (a bare integer cast truncates toward
+                # zero and biases the mean by half a count)
+                img = np.asarray(np.round(rng.normal(loc=img, scale=np.sqrt(img))), dtype=int)
             except FloatingPointError:
                 raise ValueError('Counts must be positive')
 
